@@ -231,6 +231,7 @@ def run_config(key):
     from pb_bss import _verif
     p = dict(key)
     seed = p.pop('seed')
+    p.pop('frames_lt_channels', None)
     p['lead'] = tuple(p['lead'])
     p['streamw'] = tuple(p['streamw'])
     if isinstance(p['wca'], list):
@@ -252,8 +253,8 @@ def run_config(key):
         post = M.predict(model, m, c['data']) if c['mask'] is None else \
             m.predict(c['data'], source_activity_mask=c['mask'])
     except Exception as e:  # noqa
-        if c['degenerate']:
-            return raised_ok(e)
+        if c['degenerate'] or 'ill-defined empirical covariance' in str(e):
+            return raised_ok(e)     # explicit exception (incl. the Gaussian covariance guard when EM collapses)
         return viol(f'{model}: fit/predict raised on regular input: {e!r}')
     finally:
         _verif.clear()
@@ -479,20 +480,25 @@ def subchecks(tier, seed):
     thorough = tier == 'thorough'
     subs = []
     names = SPACE.names + ['seed']
-    d = 3 if thorough else 2
+    d = int(__import__('os').environ.get('VERIF_C01_D', '4' if thorough else '2'))
+
+    def few(p):
+        # derived key field (for the known-findings matcher): fewer frames than channels
+        return bool(p['data'] in ('n_lt_d', 'n1') or (isinstance(p['N'], int) and p['N'] < p['D']))
 
     def config_cases():
         seen = set()
         for p in SPACE.deviations(d, core=('model',)):
-            t = SPACE.tup(p) + (seed,)
+            t = SPACE.tup(p) + (few(p), seed)
             if t not in seen:
                 seen.add(t)
                 yield t
         for p in SPACE.full(('model', 'wca', 'data', 'start')):
-            t = SPACE.tup(p) + (seed,)
+            t = SPACE.tup(p) + (few(p), seed)
             if t not in seen:
                 seen.add(t)
                 yield t
+    names = SPACE.names + ['frames_lt_channels', 'seed']
     subs.append(Sub('configurations', names, config_cases, run_config,
                     bound=dict(deviations=d, core_full_product=['model', 'wca', 'data', 'start'],
                                axes={a.name: [repr(v) for v in a.values] for a in SPACE.axes}),
